@@ -17,18 +17,24 @@ import (
 	"crypto/sha1"
 	"encoding/hex"
 	"encoding/json"
+	"errors"
 	"flag"
 	"fmt"
 	"os"
 	"runtime/debug"
+	"sort"
 	"strings"
 	"sync"
+	"time"
 
 	lua "github.com/yuin/gopher-lua"
 	"github.com/yuin/gopher-lua/parse"
 )
 
-func init() { subcmds["c07-dump"] = c07Dump }
+func init() {
+	subcmds["c07-dump"] = c07Dump
+	subcmds["c07-trace"] = c07Trace
+}
 
 type c07In struct {
 	ID  int    `json:"id"`
@@ -39,20 +45,21 @@ type c07Proto struct {
 	T     string   `json:"t"`
 	Sid   int      `json:"sid"`
 	Path  string   `json:"path"`
-	Np    int      `json:"np"`     // NumParameters
-	Nup   int      `json:"nup"`    // NumUpvalues
-	Nreg  int      `json:"nreg"`   // NumUsedRegisters
-	Va    int      `json:"va"`     // IsVarArg
-	Nline int      `json:"nline"`  // len(DbgSourcePositions)
-	Hi    []int    `json:"hi"`     // Code[i] >> 16
-	Lo    []int    `json:"lo"`     // Code[i] & 0xffff
-	Kt    []int    `json:"kt"`     // type of Constants[i]: 0 nil, 1 bool, 2 number, 3 string, 4 other
-	Ks    []string `json:"ks"`     // Constants[i] if it is a string (encoded), else ""
-	Sk    []string `json:"sk"`     // VerifStringConstants()[i] (encoded)
-	Pnup  []int    `json:"pnup"`   // NumUpvalues of FunctionPrototypes[i]
-	Ndbg  int      `json:"ndbgup"` // len(DbgUpvalues): only labels a wrapped NumUpvalues
-	Ls    []int    `json:"ls"`     // DbgLocals[i].StartPc
-	Le    []int    `json:"le"`     // DbgLocals[i].EndPc (first pc at which the local is out of scope)
+	Np    int      `json:"np"`            // NumParameters
+	Nup   int      `json:"nup"`           // NumUpvalues
+	Nreg  int      `json:"nreg"`          // NumUsedRegisters
+	Va    int      `json:"va"`            // IsVarArg
+	Nline int      `json:"nline"`         // len(DbgSourcePositions)
+	Hi    []int    `json:"hi"`            // Code[i] >> 16
+	Lo    []int    `json:"lo"`            // Code[i] & 0xffff
+	Kt    []int    `json:"kt"`            // type of Constants[i]: 0 nil, 1 bool, 2 number, 3 string, 4 other
+	Ks    []string `json:"ks"`            // Constants[i] if it is a string (encoded), else ""
+	Sk    []string `json:"sk"`            // VerifStringConstants()[i] (encoded)
+	Pnup  []int    `json:"pnup"`          // NumUpvalues of FunctionPrototypes[i]
+	Ndbg  int      `json:"ndbgup"`        // len(DbgUpvalues): only labels a wrapped NumUpvalues
+	Ls    []int    `json:"ls"`            // DbgLocals[i].StartPc
+	Dpc   []int    `json:"dpc,omitempty"` // c07-trace: the distinct pcs the real VM dispatched in this prototype
+	Le    []int    `json:"le"`            // DbgLocals[i].EndPc (first pc at which the local is out of scope)
 }
 
 type c07Src struct {
@@ -246,5 +253,127 @@ func c07Dump(args []string) int {
 		return 2
 	}
 	outf.Close()
+	return 0
+}
+
+// ---- c07-trace: run a few programs on the REAL VM and record, per prototype, which code words
+// the main loop dispatched as instructions.  mainLoopWithContext polls ctx.Done() once per
+// dispatched instruction, after cf.Pc++: the word being dispatched is Pc-1 of the top frame.
+
+type c07Ctx struct {
+	L      *lua.LState
+	seen   map[*lua.FunctionProto]map[int]bool
+	polls  int
+	budget int
+	closed chan struct{}
+}
+
+func (c *c07Ctx) Deadline() (time.Time, bool)       { return time.Time{}, false }
+func (c *c07Ctx) Value(key interface{}) interface{} { return nil }
+func (c *c07Ctx) Err() error {
+	if c.polls > c.budget {
+		return errors.New("c07-trace budget")
+	}
+	return nil
+}
+func (c *c07Ctx) Done() <-chan struct{} {
+	c.polls++
+	if c.polls > c.budget {
+		return c.closed
+	}
+	fr := c.L.VerifSnapshot().Frames
+	if n := len(fr); n > 0 && !fr[n-1].IsG && fr[n-1].Proto != nil {
+		m := c.seen[fr[n-1].Proto]
+		if m == nil {
+			m = map[int]bool{}
+			c.seen[fr[n-1].Proto] = m
+		}
+		m[fr[n-1].Pc-1] = true
+	}
+	return nil
+}
+
+func c07TraceOne(in c07In) (st c07Src, protos []c07Proto) {
+	st = c07Src{T: "src", Sid: in.ID}
+	name := fmt.Sprintf("c07_%d", in.ID)
+	chunk, err := parse.Parse(strings.NewReader(in.Src), name)
+	if err != nil {
+		st.St, st.Msg = "parse-error", err.Error()
+		return
+	}
+	proto, err := lua.Compile(chunk, name)
+	if err != nil {
+		st.St, st.Msg = "compile-error", err.Error()
+		return
+	}
+	L := lua.NewState()
+	defer L.Close()
+	ctx := &c07Ctx{L: L, seen: map[*lua.FunctionProto]map[int]bool{}, budget: 3000000, closed: make(chan struct{})}
+	close(ctx.closed)
+	L.SetContext(ctx)
+	L.Push(L.NewFunctionFromProto(proto))
+	st.St = "ok"
+	if err := L.PCall(0, lua.MultRet, nil); err != nil {
+		st.Msg = err.Error() // how the run ended is not judged here, only what was dispatched
+		if len(st.Msg) > 200 {
+			st.Msg = st.Msg[:200]
+		}
+	}
+	c07Walk(in.ID, "0", proto, &protos)
+	var walk func(p *lua.FunctionProto, path string)
+	byPath := map[string]*lua.FunctionProto{}
+	walk = func(p *lua.FunctionProto, path string) {
+		byPath[path] = p
+		for i, c := range p.FunctionPrototypes {
+			walk(c, fmt.Sprintf("%s.%d", path, i))
+		}
+	}
+	walk(proto, "0")
+	for i := range protos {
+		protos[i].Dpc = []int{}
+		for pc := range ctx.seen[byPath[protos[i].Path]] {
+			protos[i].Dpc = append(protos[i].Dpc, pc)
+		}
+		sort.Ints(protos[i].Dpc)
+	}
+	st.Np = len(protos)
+	return
+}
+
+func c07Trace(args []string) int {
+	fs := flag.NewFlagSet("c07-trace", flag.ExitOnError)
+	inPath := fs.String("in", "", "ndjson of {id,src}")
+	outPath := fs.String("out", "", "ndjson of source status lines and prototype dumps with dpc")
+	fs.Parse(args)
+	data, err := os.ReadFile(*inPath)
+	if err != nil {
+		fmt.Fprintln(os.Stderr, err)
+		return 2
+	}
+	outf, err := os.Create(*outPath)
+	if err != nil {
+		fmt.Fprintln(os.Stderr, err)
+		return 2
+	}
+	defer outf.Close()
+	bw := bufio.NewWriterSize(outf, 1<<20)
+	enc := json.NewEncoder(bw)
+	for _, line := range strings.Split(string(data), "\n") {
+		if strings.TrimSpace(line) == "" {
+			continue
+		}
+		var in c07In
+		if err := json.Unmarshal([]byte(line), &in); err != nil {
+			fmt.Fprintln(os.Stderr, "bad input line:", err)
+			return 2
+		}
+		fmt.Fprintf(os.Stderr, "begin %d\n", in.ID)
+		st, ps := c07TraceOne(in)
+		enc.Encode(st)
+		for _, p := range ps {
+			enc.Encode(p)
+		}
+	}
+	bw.Flush()
 	return 0
 }
